@@ -436,6 +436,20 @@ def r24_entry_or_insert(sig, body):
     return sig, body, n
 
 
+def r25_stack_index(sig, body):
+    """R25: `self.active_fiber().stack[E]` -> `self.stack_at(E)` (reading slot E of the active fiber's value stack, by contract)"""
+    n = 0
+    while True:
+        m = re.search(r'self\s*\.\s*active_fiber\(\)\s*\.\s*stack\s*\[', body)
+        if not m:
+            break
+        op = m.end() - 1
+        cl = _match_paren(body, op, '[', ']')
+        body = body[:m.start()] + 'self.stack_at(%s)' % body[op + 1:cl].strip() + body[cl + 1:]
+        n += 1
+    return sig, body, n
+
+
 RULES = {
     'R1': r1_error_macro,
     'R3': r3_continue_guard,
@@ -458,6 +472,7 @@ RULES = {
     'R22': r22_write_macro,
     'R23': r23_debug_assert,
     'R24': r24_entry_or_insert,
+    'R25': r25_stack_index,
 }
 
 DESCRIPTIONS = {k: (v.__doc__ or '').strip() for k, v in RULES.items()}
